@@ -5,7 +5,7 @@
     translator) + hook differential and e2e against an independent E4 peer (checks/C17.py). *)
 From Coq Require Import ZArith Bool List Lia.
 From GoSecs Require Import Gen.Gen Gen.BridgeSecs1 Secs1.Block Secs1.BlockProofs
-  Secs1.Assembler Secs1.AssemblerProofs.
+  Secs1.Assembler Secs1.AssemblerProofs Secs1.LineBytes Secs1.RecvStream.
 Import ListNotations.
 Open Scope Z_scope.
 
@@ -162,6 +162,41 @@ Theorem C17_retransmission_dropped : forall cfg st e,
 Proof. exact retransmission_dropped. Qed.
 Print Assumptions C17_retransmission_dropped.
 
+(** ** Nothing out of a corrupt, NAK'd transmission.  Character-level model of the receiving side
+    (idle loop + receiveBlock + drainUntilSilence, Secs1/RecvStream.v): a transmission the receive
+    procedure does not accept — nothing, a length out of range, fewer characters than announced, or
+    a failing checksum over the ANNOUNCED extent, e.g. a length character corrupted downward or
+    upward while the sender transmits the original extent — is answered by exactly one NAK after
+    the line fell silent (E4 7.8.5), and nothing it contains is answered or delivered, whatever
+    follows the failed frame inside it (ENQ + a well-formed block image, EOT/ACK/NAK, ...). With the
+    length lowered the decision depends on the announced prefix only, never on the tail. *)
+Theorem C17_nakd_transmission : forall l,
+  recv_bytes l = None -> rrun RLen (chars l ++ [Silence]) = (RIdle, [Emit c_nak]).
+Proof. exact nakd_transmission. Qed.
+Print Assumptions C17_nakd_transmission.
+
+Theorem C17_nakd_transmission_after_enq : forall l,
+  recv_bytes l = None ->
+  rrun RIdle (Ch c_enq :: chars l ++ [Silence]) = (RIdle, [Emit c_eot; Emit c_nak]).
+Proof. exact nakd_transmission_after_enq. Qed.
+Print Assumptions C17_nakd_transmission_after_enq.
+
+Theorem C17_intact_transmission : forall b,
+  wf_block b -> rrun RLen (chars (append_block b) ++ [Silence]) = (RIdle, [Emit c_ack; Deliver b]).
+Proof. exact intact_transmission. Qed.
+Print Assumptions C17_intact_transmission.
+
+Theorem C17_length_down_tail_irrelevant : forall b lb' tail,
+  wf_block b -> lb' < wire_len b ->
+  recv_bytes (lb' :: wire_rest b ++ tail) = recv_bytes (lb' :: wire_rest b).
+Proof. exact length_down_tail_irrelevant. Qed.
+Print Assumptions C17_length_down_tail_irrelevant.
+
+Theorem C17_bridge_recv_chars :
+  c_enq = Gen.secs1.enq /\ c_eot = Gen.secs1.eot /\ c_ack = Gen.secs1.ack /\ c_nak = Gen.secs1.nak.
+Proof. exact bridge_recv_chars. Qed.
+Print Assumptions C17_bridge_recv_chars.
+
 (** ** The constants are the ones in the current source. *)
 Theorem C17_bridge_constants :
   Gen.secs1.maxBlockBodySize = max_block_body /\ Gen.secs1.blockHeaderSize = block_header_size /\
@@ -219,3 +254,14 @@ Proof.
   apply il_dup; [vm_compute; reflexivity|reflexivity|vm_compute; discriminate|].
   apply il_run. apply il_nil.
 Qed.
+
+(** A block whose body carries "ENQ + a complete block image": with the length character lowered to
+    10 the receiver sees a header-only frame with a wrong checksum, listens the line silent and
+    NAKs; the image is neither granted nor delivered. *)
+Example C17_nakd_nonvacuous :
+  let image := {| b_hdr := build_header ex_in 1 true; b_body := [7] |} in
+  let carrier := {| b_hdr := build_header ex_in 1 true; b_body := [255; 255; 5] ++ append_block image |} in
+  recv_bytes (10 :: wire_rest carrier) = None /\
+  rrun RIdle (Ch c_enq :: chars (10 :: wire_rest carrier) ++ [Silence]) = (RIdle, [Emit c_eot; Emit c_nak]) /\
+  rrun RIdle (Ch c_enq :: chars (append_block image) ++ [Silence]) = (RIdle, [Emit c_eot; Emit c_ack; Deliver image]).
+Proof. cbn zeta. repeat split; vm_compute; reflexivity. Qed.
